@@ -411,6 +411,20 @@ func genC01(o *cw) {
 			o.c("selall", rnd[g.r.Intn(len(rnd))], "/", "-", s, "", "rand")
 		}
 	}
+	// rare names, a refusing navigator, sizes past internal thresholds
+	rd := rareDoc(o, false)
+	for _, e := range rarePaths() {
+		o.c("selall", rd, "/", "-", e, "", "rare-names")
+	}
+	for _, e := range []string{"*", "a", "a/b", "*/*", "//a", "//*", "a/@*", "//@*", "..", "a/..", ".//b", "/*/*", "//b/@x", "self::*/a", "a/self::a/b", "/", "//text()", "descendant::a", "following-sibling::*", "ancestor::*"} {
+		for _, d := range hand[3:8] {
+			for k := 0; k < 3; k++ {
+				o.c("selnm", d, d.all[(k*5+len(e))%len(d.all)].Addr(), "-", e, "", "refusing-navigator")
+			}
+		}
+	}
+	sizeCases(o, "wide", []string{"/r/s/a", "/r/s/*", "//a", "//a/@id", "//b/..", "/r/s/a/following-sibling::b", "//a/preceding-sibling::*", "count(//a)", "count(//@id)"}, wideDoc(o, 300))
+	sizeCases(o, "deep", []string{"//x", "//y", "descendant::y", "//y/ancestor::x", "count(//x)", "count(//*)", "//y/ancestor-or-self::*", "/descendant::x/y"}, deepDoc(o, 1100, "y"))
 }
 
 func minInt(a, b int) int {
@@ -512,6 +526,24 @@ func genC02(o *cw) {
 		o.c("selall", hand[4+g.r.Intn(len(hand)-4)], "/", "-", s, "", "rand")
 		o.c("selall", hand[4+g.r.Intn(len(hand)-4)], "/", "-", s, "", "rand")
 		o.c("selall", rnd[g.r.Intn(len(rnd))], "/", "-", s, "", "rand")
+	}
+	// rare names and keyword names inside predicates; values at the edges of the number format
+	rd := rareDoc(o, false)
+	for _, e := range rarePreds() {
+		if !strings.HasPrefix(e, "count(") && !strings.HasPrefix(e, "sum(") && !strings.HasPrefix(e, "name(") && !strings.HasPrefix(e, "local-name(") && !strings.Contains(e, " + ") && !strings.Contains(e, " * ") && !strings.HasSuffix(e, " 2") {
+			o.c("selall", rd, "/", "-", e, "", "rare-names")
+		}
+	}
+	ed := edgeDoc(o)
+	for _, op := range []string{"=", "!=", "<", "<=", ">", ">="} {
+		for _, k := range []string{"5", "0", "1", "3", "(1 div 0)", "(0 div 0)", "1000000000000002"} {
+			for _, l := range []string{"@n", "@id", ".", "string(@n)", "string(.)", "concat(@n, '')", "normalize-space(@n)", "substring-after(concat('x', @n), 'x')", "number(@n)"} {
+				o.c("sel", ed, "/", "-", "//*["+l+" "+op+" "+k+"]", "", "edge-values-pred")
+				o.c("sel", ed, "/", "-", "//*[not("+l+" "+op+" "+k+")]", "", "edge-values-pred")
+				o.c("sel", ed, "/", "-", "//*["+k+" "+op+" "+l+"]", "", "edge-values-pred")
+				o.c("sel", ed, "/", "-", "//*["+l+" "+op+" "+k+" or @zz]", "", "edge-values-pred")
+			}
+		}
 	}
 }
 
@@ -671,6 +703,7 @@ func genC03(o *cw) {
 			o.c("selall", ds[g.r.Intn(len(ds))], "/", "-", s, "", "rand")
 		}
 	}
+	rareC03(o, ds)
 }
 
 // C12: flat paths: exact sequence; count / reverse / Evaluate relations
@@ -746,6 +779,16 @@ func genC12(o *cw) {
 				o.c("eval3all", d, "/", "-", e, "", "cursor-lastfunc")
 			} else {
 				o.c("sel3all", d, "/", "-", e, "", "cursor-lastfunc")
+			}
+		}
+	}
+	sizeCases(o, "deep", []string{"//x", "//y", "descendant::y", "count(//x)", "count(//*)", "//y/ancestor::x", "descendant-or-self::x", "reverse(//x)"}, deepDoc(o, 1100, "y"))
+	sizeCases(o, "deep", deepExprs, deepDoc(o, 40, "y(@x=1)"), deepDoc(o, 300, "y"))
+	sizeCases(o, "wide", []string{"/r/s/a", "/r/s/*", "//a", "count(//a)", "reverse(//a)", "/r/s/a/@id", "count(/r/s/*/@id)"}, wideDoc(o, 300))
+	for _, e := range []string{"*", "a", "a/b", "*/*", "//a", "//*", "a/@*", "//@*", "a/self::a/b", "*/@x", "//b"} {
+		for _, d := range ds[:6] {
+			for k := 0; k < 3; k++ {
+				o.c("selnm", d, d.all[(k*7+len(e))%len(d.all)].Addr(), "-", e, "", "refusing-navigator")
 			}
 		}
 	}
@@ -851,6 +894,7 @@ func genC11(o *cw) {
 			o.c("selall", ds[g.r.Intn(len(ds))], "/", "-", s, "", "union")
 		}
 	}
+	sizeCases(o, "wide-union", wideExprs, wideDoc(o, 300), wideDoc(o, 90))
 }
 
 // addrPath: the absolute path that addresses node r: /child::node()[k]/.../attribute::name
@@ -953,5 +997,23 @@ func genC13(o *cw) {
 				}
 			}
 		}
+	}
+	// the wrappers on documents past internal thresholds (more than 256 siblings; 10^5 ancestors,
+	// implementation side only: kinds selgo / evalgo)
+	wd := wideDoc(o, 300)
+	for _, s := range []string{"/r/s/a", "/r/s/*", "//a", "s/a", "//a[last()]/preceding-sibling::a", "//@id"} {
+		gid := grp()
+		o.c("sel", wd, "/", "-", s, gid, "wrap-wide")
+		o.c("sel", wd, "/", "-", s+"[true()]", gid, "wrap-wide[true()]")
+		o.c("sel", wd, "/", "-", "("+s+")", gid, "wrap-wide()")
+		o.c("sel", wd, "/", "-", s+" | "+s, gid, "wrap-wide|")
+	}
+	big := o.doc(gen.RegularTree(2, 18, "x"), false)
+	for _, s := range []string{"//x/ancestor::*"} {
+		// distinctgo: the number of DISTINCT nodes selected (P[true()] may repeat nodes, which C13 does not forbid)
+		gid := grp()
+		o.c("distinctgo", big, "/", "-", s, gid, "wrap-big")
+		o.c("distinctgo", big, "/", "-", s+"[true()]", gid, "wrap-big[true()]")
+		o.c("distinctgo", big, "/", "-", "("+s+")", gid, "wrap-big()")
 	}
 }
